@@ -261,3 +261,105 @@ func failureMonotone(p *Prog, fn *ssa.Function) (nStages, nPaths int, bad []stri
 	}
 	return
 }
+
+// reachableUnderPhi: like reachableUnder, but boolean phis (conditions computed
+// by && / || into a named variable) are evaluated along the path, so that a
+// guard written as "ok := a && b; if ok {…}" decides as much as "if a && b {…}".
+func reachableUnderPhi(fn *ssa.Function, target ssa.Instruction, atom func(cond ssa.Value) (known bool, val bool)) bool {
+	type state struct {
+		b   *ssa.BasicBlock
+		sig string
+	}
+	seen := map[state]bool{}
+	var eval func(v ssa.Value, env map[ssa.Value]bool3, d int) bool3
+	eval = func(v ssa.Value, env map[ssa.Value]bool3, d int) bool3 {
+		if d > 20 {
+			return bUnknown
+		}
+		if known, val := atom(v); known {
+			return b3(val)
+		}
+		if e, ok := env[v]; ok {
+			return e
+		}
+		if b, ok := constBool(v); ok {
+			return b3(b)
+		}
+		if u, ok := v.(*ssa.UnOp); ok && u.Op == token.NOT {
+			switch eval(u.X, env, d+1) {
+			case bTrue:
+				return bFalse
+			case bFalse:
+				return bTrue
+			}
+		}
+		return bUnknown
+	}
+	var dfs func(b, prev *ssa.BasicBlock, env map[ssa.Value]bool3) bool
+	dfs = func(b, prev *ssa.BasicBlock, env map[ssa.Value]bool3) bool {
+		// phis of bool type
+		if prev != nil {
+			idx := -1
+			for i, pb := range b.Preds {
+				if pb == prev {
+					idx = i
+				}
+			}
+			vals := map[ssa.Value]bool3{}
+			for _, ins := range b.Instrs {
+				phi, ok := ins.(*ssa.Phi)
+				if !ok {
+					break
+				}
+				if isBoolType(phi.Type()) && idx >= 0 && idx < len(phi.Edges) {
+					vals[phi] = eval(phi.Edges[idx], env, 0)
+				}
+			}
+			if len(vals) > 0 {
+				e2 := map[ssa.Value]bool3{}
+				for k, v := range env {
+					e2[k] = v
+				}
+				for k, v := range vals {
+					e2[k] = v
+				}
+				env = e2
+			}
+		}
+		if b == target.Block() {
+			return true
+		}
+		var keys []string
+		for k, v := range env {
+			keys = append(keys, fmt.Sprintf("%s=%d", k.Name(), v))
+		}
+		sort.Strings(keys)
+		st := state{b, fmt.Sprint(keys)}
+		if seen[st] {
+			return false
+		}
+		seen[st] = true
+		if ifi, ok := b.Instrs[len(b.Instrs)-1].(*ssa.If); ok {
+			c, pol := normCond(ifi.Cond, true)
+			switch eval(c, env, 0) {
+			case bTrue:
+				if pol {
+					return dfs(b.Succs[0], b, env)
+				}
+				return dfs(b.Succs[1], b, env)
+			case bFalse:
+				if pol {
+					return dfs(b.Succs[1], b, env)
+				}
+				return dfs(b.Succs[0], b, env)
+			}
+		}
+		for _, s := range b.Succs {
+			if dfs(s, b, env) {
+				return true
+			}
+		}
+		return false
+	}
+	return dfs(fn.Blocks[0], nil, map[ssa.Value]bool3{})
+}
